@@ -16,14 +16,16 @@ import (
 // become 2^64-1 and smear over every packed field), ParseUint(s, 10, 32) rejects anything wider.
 //
 // Slots (by type): the Value field of b6.FeatureID.
-//   #parse — every call of strconv.ParseInt/ParseUint/Atoi whose first result reaches a Value
-//            sink in the same function (the Value element of a FeatureID composite literal, or an
-//            assignment to x.Value), directly, through a local variable, through conversions or
-//            inside a bit-or/shift expression. Obligation: the call is ParseUint; when the
-//            parsed number is the whole value (not or-ed with other fields) its bitSize is 64.
-//   #print — every call of strconv.Itoa/FormatInt/FormatUint whose argument contains a selection
-//            of FeatureID.Value. Obligation: the call is FormatUint (no conversion of the value
-//            to a signed or narrower type inside the argument).
+//
+//	#parse — every call of strconv.ParseInt/ParseUint/Atoi whose first result reaches a Value
+//	         sink in the same function (the Value element of a FeatureID composite literal, or an
+//	         assignment to x.Value), directly, through a local variable, through conversions or
+//	         inside a bit-or/shift expression. Obligation: the call is ParseUint; when the
+//	         parsed number is the whole value (not or-ed with other fields) its bitSize is 64.
+//	#print — every call of strconv.Itoa/FormatInt/FormatUint whose argument contains a selection
+//	         of FeatureID.Value. Obligation: the call is FormatUint (no conversion of the value
+//	         to a signed or narrower type inside the argument).
+//
 // fmt verbs are not judged (an unsigned operand prints unsigned).
 func init() {
 	register(&Rule{
